@@ -90,7 +90,32 @@ func checkC04(e *RunEnv) *CheckResult {
 			return vs, len(vs) == 0
 		},
 	}
-	return runSpec(e, spec, nil)
+	var sweep int
+	return runSpecWith(e, spec, func(x *Explorer) {
+		base := x.BuildState(seedS0())
+		if base == nil {
+			return
+		}
+		var cs []Case
+		for _, set := range subsetsUpTo(sharpNames, e.pick(2, 3)) {
+			pre := sweepBase(set)
+			// every path and every directory prefix as argument of rm and (after edits) of add
+			argsList := append(append([]string{}, set...), dirPrefixes(set)...)
+			for _, arg := range argsList {
+				cs = append(cs, Case{Base: base, BaseName: "S0", BaseSeed: seedS0(), Steps: append(append([]Step{}, pre...), Write("zz untracked", "u\n"), Run("rm", arg))})
+				ed := append([]Step{}, pre...)
+				for _, p := range set {
+					ed = append(ed, Write(p, v2(p)))
+				}
+				ed = append(ed, Delete(set[len(set)-1]), Run("add", arg), Run("add", arg))
+				cs = append(cs, Case{Base: base, BaseName: "S0", BaseSeed: seedS0(), Steps: ed})
+			}
+		}
+		sweep = x.RunCases(cs)
+	}, func(x *Explorer, cov map[string]interface{}) {
+		cov["name_sweep_cases"] = sweep
+		cov["states"] = x.States + sweep
+	})
 }
 
 func outputTail(r *Result) string {
